@@ -166,6 +166,12 @@ func main() {
 				resp.Name = rn + "-other"
 			case "wrongversion":
 				resp.APIVersion = api.APIVersion + 1
+			case "olderversion": // any version other than the host's is a mismatch, older ones included
+				resp.APIVersion = api.APIVersion - 1
+			case "zeroversion":
+				resp.APIVersion = 0
+			case "negversion":
+				resp.APIVersion = -1
 			case "nofeature":
 				resp.Features = []api.Feature{}
 			}
